@@ -49,6 +49,17 @@ def main():
             print("selftest: %s not rejected by %s (got %s)" % (k, cl, sorted(by.get(k, ()))))
             bad += 1
     print("selftest binding: %s (%d positions)" % ("ok" if not bad else "FAILED", res["positions"]))
+    # 4. the other direction: the run the specification generates for the same model (RunRecordF,
+    #    exported by Gen_SpecRun) is, event for event, the run recorded from the code
+    from . import runner
+    sr = runner.spec_runs([(cfg, cfg["opts"])])[0]["runs"][0]
+    cr = good["runs"][0]
+    same = ([(e["ph"], e["st"]) for e in sr["ev"]] == [(e["ph"], e["st"]) for e in cr["ev"]]
+            and sr["ret"] == cr["ret"] and sr["final"]["lg"] == cr["final"]["lg"])
+    if not same:
+        print("selftest: the specification's run differs from the recorded run of the code")
+        bad += 1
+    print("selftest spec-run = code-run: %s (%d events)" % ("ok" if same else "FAILED", len(sr["ev"])))
     return bad
 
 
